@@ -1,8 +1,159 @@
-import EdpVerif.Drv.Common
+import EdpVerif.Drv.Etf
+import EdpVerif.Impl.Framing
 namespace Edp.Drv
+open Edp Edp.Framing
 
-/-- driver requests of property C05 (stub: nothing handled yet) -/
+namespace C05
+
+/-- tail-recursive hex parser (frames of 64 KiB arrive as one token) -/
+def unhexTR : List Char → Bytes → Option Bytes
+  | [], acc => some acc.reverse
+  | [_], _ => none
+  | a :: b :: r, acc =>
+    match hexVal a, hexVal b with
+    | some x, some y => unhexTR r (UInt8.ofNat (x * 16 + y) :: acc)
+    | _, _ => none
+
+def getBytes (s : String) : Except String Bytes :=
+  if s == "-" then .ok [] else
+  match unhexTR s.toList [] with
+  | some b => .ok b
+  | none => .error "bad-hex"
+
+def getMode (s : String) : Except String Mode :=
+  if s == "h" then .ok .handshake else if s == "d" then .ok .distribution else .error "bad-mode"
+
+def getEv (t : String) : Except String Ev :=
+  match t.toList with
+  | ['p'] => .ok .pending
+  | ['e'] => .ok .eof
+  | ['f'] => .ok .fail
+  | ['s'] => .ok .stall
+  | 'c' :: r =>
+    match unhexTR r [] with
+    | some b => .ok (.chunk b)
+    | none => .error "bad-chunk"
+  | _ => .error "bad-event"
+
+def getEvs (s : String) : Except String (List Ev) :=
+  if s == "-" then .ok [] else (s.splitOn ",").mapM getEv
+
+def getWEv (t : String) : Except String WEv :=
+  match t.toList with
+  | ['p'] => .ok .pending
+  | ['f'] => .ok .fail
+  | 'a' :: r =>
+    match (String.ofList r).toNat? with
+    | some k => .ok (.accept k)
+    | none => .error "bad-accept"
+  | _ => .error "bad-wevent"
+
+def getWEvs (s : String) : Except String (List WEv) :=
+  if s == "-" then .ok [] else (s.splitOn ",").mapM getWEv
+
+def getMsgs (s : String) : Except String (List Bytes) :=
+  if s == "-" then .ok [] else
+  (s.splitOn ",").mapM fun t =>
+    match t.toList with
+    | 'm' :: r =>
+      match unhexTR r [] with
+      | some b => .ok b
+      | none => .error "bad-msg"
+    | _ => .error "bad-msg"
+
+def hexArg (b : Bytes) : String := if b.isEmpty then "-" else hexOf b
+
+def showRErr (cap : Nat) : RErr → String
+  | .eof => "err-eof"
+  | .io => "err-io"
+  | .timeout => "err-timeout"
+  | .tooLarge n => "err-toolarge:" ++ toString n ++ ":" ++ toString cap
+
+def showRes (cap : Nat) : Except RErr Bytes → String
+  | .ok b => "ok=" ++ hexArg b
+  | .error e => showRErr cap e
+
+def showWErr : WErr → String
+  | .writeZero => "err-writezero"
+  | .io => "err-io"
+
+/-- what the harness prints for one body returned by the second copy: the payload of `112 ++ ctl ++ 131,109,len32,data`,
+or the class of the error the rest of the function raises. `none` = keep going, `some` = the call failed. -/
+def rhToken (ctl : Bytes) (body : Bytes) : String × Bool :=
+  match classifyBody body with
+  | .empty => ("err-empty", true)
+  | .badMarker _ => ("err-protocol", true)
+  | .pass rest =>
+    if rest.take ctl.length == ctl then
+      match rest.drop ctl.length with
+      | 131 :: 109 :: r =>
+        match rdN 4 r with
+        | some (n, d) => if d.length == n then ("ok=" ++ hexArg d, false) else ("err-decode", true)
+        | none => ("err-decode", true)
+      | _ => ("err-decode", true)
+    else ("err-decode", true)
+
+def rhTokens (ctl : Bytes) : List (Except RErr Bytes) → List String
+  | [] => []
+  | .error .timeout :: r => "err-timeout" :: rhTokens ctl r
+  | .error e :: _ => [showRErr connCap e]
+  | .ok b :: r =>
+    match rhToken ctl b with
+    | (t, true) => [t]
+    | (t, false) => t :: rhTokens ctl r
+
+def isClean : List Ev → Bool
+  | [] => true
+  | .chunk bs :: r => !bs.isEmpty && isClean r
+  | .pending :: r => isClean r
+  | _ :: _ => false
+
+end C05
+
+open C05 in
+/-- driver requests of property C05 -/
 def handleC05 : List String → Option String
+  | ["c05frame", m, h] => some <| run do
+    let m ← getMode m
+    let b ← getBytes h
+    pure ("ok " ++ hexOf (frame m b))
+  | ["c05write", m, h, s] => some <| run do
+    let m ← getMode m
+    let b ← getBytes h
+    let s ← getWEvs s
+    let o := writeFramed m b s
+    let r := match o.res with
+      | .ok () => "ok"
+      | .error e => showWErr e
+    let c := if o.chunks.isEmpty then "-" else ",".intercalate (o.chunks.map hexOf)
+    pure (r ++ " " ++ c ++ " " ++ toString o.flushes)
+  | ["c05read", m, e] => some <| run do
+    let m ← getMode m
+    let evs ← getEvs e
+    pure (" ".intercalate ((readAll framingCap m evs).map (showRes framingCap)))
+  | ["c05readt", m, e] => some <| run do
+    let m ← getMode m
+    let evs ← getEvs e
+    pure (" ".intercalate ((readRetry framingCap m evs).map (showRes framingCap)))
+  | ["c05rht", ctl, e] => some <| run do
+    let ctl ← getBytes ctl
+    let evs ← getEvs e
+    pure (" ".intercalate (rhTokens ctl (recvRetry connCap evs)))
+  | ["c05rh", ctl, e] => some <| run do
+    let ctl ← getBytes ctl
+    let evs ← getEvs e
+    pure (" ".intercalate (rhTokens ctl (recvAll connCap evs)))
+  -- the hypotheses of C05_split_invariance hold for this case and its conclusion evaluates as stated
+  | ["c05split", m, ms, e] => some <| run do
+    let m ← getMode m
+    let msgs ← getMsgs ms
+    let evs ← getEvs e
+    if !isClean evs then pure "FAIL script-not-clean"
+    else if payload evs != (msgs.map (frame m)).flatten then pure "FAIL payload-is-not-the-frames"
+    else if !msgs.all (fun x => decide (fits m x) && x.length ≤ framingCap) then pure "FAIL message-does-not-fit"
+    else if (readAll framingCap m evs).map (showRes framingCap)
+        == (msgs.map fun x => "ok=" ++ hexArg x) ++ ["err-eof"] then pure "ok"
+    else pure "FAIL model-readAll-differs"
   | _ => none
 
 end Edp.Drv
